@@ -142,6 +142,32 @@ def rule_arena(ctx, rep):
         grows = bool(diff) and all(c_ > 0 for c_ in diff.values()) and all(isinstance(t_, tuple) and t_[0] == "ld" and t_[1].endswith("registry_chunk.capacity") for t_ in diff)
         rep.check(grows, "C15.arena", "expand.grows", "the in-place remap enlarges the chunk (new - old = %s)" % linear.show(diff),
                   "the in-place remap does not enlarge the chunk (new size - old size = %s): registered readers' slots beyond the new end are unmapped / no slot is gained" % linear.show(diff), [c.where()])
+    # ... and records it: on the in-place path (mremap succeeded, no fresh mapping) the grown chunk's capacity is updated to match the
+    # new size - otherwise arena_alloc keeps seeing a full chunk, expands again, and registration beyond the initial capacity fails
+    # although the memory is there.  Decided on the flattened registration root: helpers extracted from expand_arena are inlined there.
+    g = ctx.fn("bp", "urcu_bp_register")
+    rd_ = pm.structs.get("urcu_bp_reader")
+    for c in [c_ for c_ in g.calls() if c_.callee == "mremap"]:
+        is_map = lambda x: x.op == "call" and x.callee == "mmap"
+        capst = [s_ for s_ in pat.stores(g, "registry_chunk.capacity") if g.reach([c], [s_], avoid=is_map)[0] is not None]
+        hit, par = g.reach([c], None, avoid=lambda x: is_map(x) or x in capst, stop_at_exit=True)
+        if hit is not None and hit.op == "ret":
+            rep.bad("C15.arena", "expand.inplace-records-capacity", "after growing the last chunk in place the registration path returns without updating the chunk's capacity: the new slots are never handed out, "
+                    "the arena is `full` at its initial capacity and the next registration aborts", [c.where()])
+            continue
+        rep.ok("C15.arena", "expand.inplace-records-capacity", "the in-place path stores the chunk's new capacity")
+        old_sz = ir.expr(g, c.args[1], 8)
+        new_sz = ir.expr(g, c.args[2], 8)
+        for s_ in capst[:1]:
+            capn = linear.norm(ir.expr(g, s_.args[0], 8))
+            d_sz = linear.sub(linear.norm(new_sz) or {}, linear.norm(old_sz) or {})
+            if capn is not None and rd_ and d_sz and all(isinstance(t_, tuple) and t_[0] == "ld" for t_ in d_sz):
+                # new - old bytes == (new capacity - old capacity) * slot size, old capacity being the load the sizes are computed from
+                oldcap = {t_: 1 for t_ in d_sz}
+                want = {t_: c2 * rd_["size"] for t_, c2 in linear.sub(capn, oldcap).items()}
+                rep.check(want == d_sz, "C15.arena", "expand.inplace-capacity=size", "the recorded capacity grows by exactly the slots the remap appended",
+                          "the in-place growth appends %s bytes but records a capacity change of %s slots of %d bytes: slots beyond the mapping are handed out, or mapped slots never are"
+                          % (linear.show(d_sz), linear.show(linear.sub(capn, oldcap)), rd_["size"]), [s_.where()])
     # every chunk handed to the arena has its capacity recorded before it becomes reachable, and the capacity matches its size
     # (decided in whichever function of the library maps a chunk: expand_arena itself or a helper extracted from it)
     rd = pm.structs.get("urcu_bp_reader")
